@@ -157,6 +157,74 @@ def render(rng, contents, cell=24, grid=None, elong=True):
     return img, ncomp
 
 
+LABEL_FORMS = ('int', 'npint', 'npsmall', 'zero_d', 'list', 'list_np', 'tuple', 'array', 'unsorted', 'dups', 'all')
+LAYOUTS = ('F', 'strided', 'transposed', 'offset', 'bigendian')
+
+
+def draw_axes(rng, cls):
+    """Generic axes drawn independently of the generator class (about half of the cases stay plain)."""
+    ax = {}
+    if rng.random() < 0.5:
+        return ax
+    p = 0.4
+    if rng.random() < p and cls not in ('hostile',):
+        if rng.random() < 0.5:
+            ax['scale'] = ('pow2', int(rng.integers(-60, 41)))
+        else:
+            ax['scale'] = ('dec', float(10.0 ** rng.uniform(-20, 10)))
+    if rng.random() < p:
+        ax['data_layout'] = str(rng.choice(LAYOUTS))
+    if rng.random() < p:
+        ax['seg_layout'] = str(rng.choice(LAYOUTS))
+    if rng.random() < 0.3 and cls not in ('hostile',):
+        ax['data_dtype'] = str(rng.choice(['float32', 'float32', 'int32', 'int64', 'uint16']))
+    if rng.random() < p and cls not in ('nmarkers',):
+        ax['shape'] = str(rng.choice(['wide', 'tall', '1xN', 'Nx1']))
+    if rng.random() < p:
+        ax['forms'] = {
+            'npixels': str(rng.choice(['int', 'np.int64', 'np.int32', 'np.intp', 'np.uint8', 'zero_d', 'positional'])),
+            'nlevels': str(rng.choice(['int', 'np.int64', 'np.int32', 'np.uint8', 'zero_d'])),
+            'contrast': str(rng.choice(['float', 'np.float64', 'np.float32', 'zero_d'])),
+            'connectivity': str(rng.choice(['int', 'np.int64'])),
+            'relabel': str(rng.choice(['bool', 'np.bool_', 'int'])),
+            'mode': str(rng.choice(['str', 'np.str_'])),
+            'nproc': str(rng.choice(['int', 'np.int64'])),
+        }
+    if rng.random() < p:
+        ax['labels_form'] = str(rng.choice(LABEL_FORMS))
+    return ax
+
+
+def render_1d(rng, contents, cell=24):
+    """A 1 x N profile: the same cell contents along one row (sigma in pixels along the row)."""
+    n = len(contents)
+    N = n * cell
+    xx = np.arange(N, dtype=float)
+    img = np.zeros(N)
+    ncomp = []
+    order = rng.permutation(n)
+    for what, ci in zip(contents, order):
+        x0 = (ci + 0.5) * cell + rng.uniform(-2, 2)
+        if what == 'blend':
+            k = int(rng.integers(2, 5))
+            s0 = rng.uniform(1.1, 2.2)
+            for g in range(k):
+                dx = 0.0 if g == 0 else rng.choice([-1, 1]) * rng.uniform(1.8, 4.0) * s0
+                img += 10.0 ** rng.uniform(0.5, 2.0) * np.exp(-0.5 * ((xx - x0 - dx) / (s0 * rng.uniform(0.8, 1.25))) ** 2)
+            ncomp.append(k)
+        elif what == 'iso':
+            img += 10.0 ** rng.uniform(0.3, 1.8) * np.exp(-0.5 * ((xx - x0) / rng.uniform(1.0, 2.5)) ** 2)
+            ncomp.append(1)
+        elif what == 'tiny':
+            img += rng.uniform(1.0, 4.0) * np.exp(-0.5 * ((xx - x0) / rng.uniform(0.45, 0.8)) ** 2)
+            ncomp.append(1)
+        elif what == 'plateau':
+            r = rng.uniform(2.0, 5.0)
+            img[np.abs(xx - x0) <= r] = float(rng.integers(2, 9))
+            ncomp.append(0)
+    return img[None, :], ncomp
+
+
 def draw_kw(rng, npix_det, cls):
     npix = npix_det
     if rng.random() < 0.3:
@@ -173,6 +241,7 @@ def draw_kw(rng, npix_det, cls):
 
 
 def make_scene(rng, cls):
+    ax = draw_axes(rng, cls)
     conn = int(rng.choice([4, 8]))
     npix_det = int(rng.choice([1, 2, 3, 5, 5, 8, 10]))
     thr = float(rng.uniform(0.3, 1.0))
@@ -219,7 +288,15 @@ def make_scene(rng, cls):
                         + ['tiny'] * int(rng.integers(1, 5)))
         noise = float(rng.choice([0.0, 0.0, 0.02]))
 
-    img, ncomp = render(rng, contents, cell=cell, elong=(cls != 'flat' or rng.random() < 0.5))
+    shape_ax = ax.get('shape')
+    if shape_ax in ('1xN', 'Nx1'):
+        img, ncomp = render_1d(rng, contents, cell=cell)
+        npix_det = min(npix_det, 3)
+    else:
+        grid = None
+        if shape_ax in ('wide', 'tall'):
+            grid = (1, len(contents))
+        img, ncomp = render(rng, contents, cell=cell, grid=grid, elong=(cls != 'flat' or rng.random() < 0.5))
 
     if cls == 'nmarkers':
         # one large envelope with many local peaks (> 200 markers for exponential/sinh)
@@ -270,9 +347,11 @@ def make_scene(rng, cls):
         if rng.random() < 0.5:
             img = img.copy()
             img[mask] = np.nan                    # NaN only under the mask: never inside a segment
-        if rng.random() < 0.3:
+        if rng.random() < 0.3 and img.shape[0] > 2:
             r = int(rng.integers(0, img.shape[0]))
             mask[r, :] = True                     # a masked row cuts sources in two
+        if mask.all():
+            mask.flat[0] = False
     elif cls == 'hostile':
         kind = str(rng.choice(['inf_peak', 'huge_range', 'tiny_range', 'denormal', 'f32', 'int_data', 'uint_data']))
         if kind == 'inf_peak':
@@ -297,7 +376,34 @@ def make_scene(rng, cls):
             thr = 0.5
         flags['hostile_kind'] = kind
 
+    if shape_ax in ('tall', 'Nx1'):
+        img = np.ascontiguousarray(img.T)
+        if mask is not None:
+            mask = np.ascontiguousarray(mask.T)
+    if 'scale' in ax and img.dtype.kind == 'f' and np.isfinite(img).all():
+        kind_s, v = ax['scale']
+        f = float(2.0 ** v) if kind_s == 'pow2' else float(v)
+        img = img * f
+        thr = thr * f
+        flags['scale'] = f
+        flags['scale_kind'] = kind_s
+    if 'data_dtype' in ax and img.dtype == np.float64 and 'scale' not in flags and np.isfinite(img).all():
+        dt = ax['data_dtype']
+        if dt == 'float32':
+            img = img.astype(np.float32)
+        else:
+            if dt == 'uint16' and img.min() < 0:
+                dt = 'int32'
+            img = np.round(img).astype(dt)
+        flags['data_dtype_axis'] = dt
+    elif 'data_dtype' in ax and ax['data_dtype'] == 'float32' and img.dtype == np.float64 \
+            and np.isfinite(img).all() and 1e-30 < abs(flags.get('scale', 1.0)) < 1e30:
+        img = img.astype(np.float32)
+        flags['data_dtype_axis'] = 'float32'
+
     kw = draw_kw(rng, npix_det, cls)
+    if shape_ax in ('1xN', 'Nx1'):
+        kw['npixels'] = min(kw['npixels'], int(rng.integers(1, 5)))
 
     if cls == 'levels':
         kw['nlevels'] = int(rng.integers(1, 65))
@@ -360,11 +466,14 @@ def make_scene(rng, cls):
         flags['label_norm'] = 'ride_along'
     if cls not in ('subset', 'gaps') and rng.random() < 0.12:
         labels = str(rng.choice(['list', 'array', 'unsorted']))
-    layout = 'C'
-    if rng.random() < 0.15 and img.dtype.kind == 'f':
+    if labels is None and 'labels_form' in ax and cls != 'degenerate':
+        labels = ax['labels_form']
+    layout = ax.get('data_layout', 'C')
+    if layout == 'C' and rng.random() < 0.1 and img.dtype.kind == 'f':
         layout = str(rng.choice(['F', 'strided', 'bigendian']))
     return dict(data=img, thr=thr, mask=mask, conn=conn, npix_det=npix_det, kw=kw, post=post,
-                labels=labels, flags=flags, layout=layout, ncomp=ncomp)
+                labels=labels, flags=flags, layout=layout, ncomp=ncomp, axes=ax,
+                seg_layout=ax.get('seg_layout', 'C'), forms=ax.get('forms'))
 
 
 def apply_layout(data, layout):
@@ -376,7 +485,42 @@ def apply_layout(data, layout):
         return big[:, ::2]
     if layout == 'bigendian':
         return data.astype(data.dtype.newbyteorder('>'))
+    if layout == 'transposed':
+        return np.ascontiguousarray(data.T).T
+    if layout == 'offset':
+        big = np.zeros((data.shape[0] + 5, data.shape[1] + 7), dtype=data.dtype)
+        big[3:3 + data.shape[0], 4:4 + data.shape[1]] = data
+        return big[3:3 + data.shape[0], 4:4 + data.shape[1]]
     return data
+
+
+def apply_forms(kw, conn, forms):
+    """The same argument values in another call form. Returns (positional_npixels or None, kwargs)."""
+    kw = dict(kw)
+    kw['connectivity'] = conn
+    if not forms:
+        return None, kw
+
+    def conv(v, how):
+        if how in ('int', 'float', 'bool', 'str'):
+            return v
+        if how == 'zero_d':
+            return np.array(v)
+        if how == 'np.uint8':
+            return np.uint8(v) if 0 <= v <= 63 else np.int64(v)
+        if how == 'np.str_':
+            return np.str_(v)
+        if how == 'positional':
+            return v
+        return getattr(np, how.split('.')[1])(v)
+
+    for k in ('npixels', 'nlevels', 'contrast', 'connectivity', 'mode'):
+        kw[k] = conv(kw[k], forms[k])
+    kw['relabel'] = {'bool': kw['relabel'], 'np.bool_': np.bool_(kw['relabel']), 'int': int(kw['relabel'])}[forms['relabel']]
+    pos = None
+    if forms['npixels'] == 'positional':
+        pos = kw.pop('npixels')
+    return pos, kw
 
 
 def apply_post(rng, seg_arr, post):
@@ -454,6 +598,14 @@ def draw_labels(rng, how, labs, areas, npixels):
     if how == 'npint':
         v = rng.choice(labs)
         return np.int64(v), [int(v)]
+    if how == 'npsmall':
+        v = int(rng.choice(labs))
+        return (np.uint16(v) if v < 65536 else np.int64(v)), [v]
+    if how == 'zero_d':
+        v = int(rng.choice(labs))
+        return np.array(v), [v]
+    if how == 'list_np':
+        return [np.int64(v) for v in sub], [int(v) for v in sub]
     if how == 'one_tiny':
         small = labs[np.asarray(areas) < 2 * npixels]
         v = int(rng.choice(small if small.size else labs))
